@@ -543,7 +543,7 @@ func (t *tcase) plotterStep() {
 		}
 		t.judge(ev, map[string]bool{sid: true}, t.observe(), nil)
 	case t.pos == "inplot":
-		out := t.rng.PickS("complete", "complete", "abort")
+		out := t.rng.PickS("complete", "complete", "abort", "error")
 		d := t.dbOf(t.posSID)
 		if d == nil {
 			return
